@@ -24,9 +24,19 @@
 #undef deque
 
 namespace c01 {
+// The copy operations are user-provided on purpose: a trivially copyable 8-byte struct (and std::pair<int, Item>, which
+// Obim.h passes by value) travels in registers as ONE i64 = bucket | payload << 32, and CBMC does not fold the constant
+// half out of such a word; a non-trivial copy makes the ABI pass it in memory, field by field.
 struct Item {
   int bucket;  // priority level = bucket index
   int payload; // symbolic identity within the level
+  Item() : bucket(0), payload(0) {}
+  Item(const Item& o) : bucket(o.bucket), payload(o.payload) {}
+  Item& operator=(const Item& o) {
+    bucket  = o.bucket;
+    payload = o.payload;
+    return *this;
+  }
 };
 inline int slot(const Item& it) { return it.bucket * 4 + it.payload; } // key of the multiset oracle
 struct BucketIndexer {
